@@ -1909,6 +1909,7 @@ def promo_check_families():
 def check_C19(ctx):
     consts_compare(ctx, ['MATE_VALUE', 'INFINITY', 'MAX_PLY'] + C16_ROWS)
     roots = search_roots(ctx, 220 if ctx.quick else 5000)
+    nval_jobs = []
     extra = [(f, [], f, legal_info(ctx, f)) for f in load_regressions('C19') + promo_check_families()[:: (4 if ctx.quick else 1)]]
     for base, moves, fen, info in extra + roots:
         if not info or info[3] != 'no': continue
@@ -1920,6 +1921,7 @@ def check_C19(ctx):
             ctx.count('skipped-oracle-budget'); continue
         v1 = int(o1[0])
         v2 = None
+        nval_jobs.append((fen, 1, v1))
         for d in (1, 2):
             cmd = f'search fen {fen} ; depth={d} tt=bypass'
             so = run_search(ctx, 'fen ' + fen, f'depth={d} tt=bypass')
@@ -1947,6 +1949,8 @@ def check_C19(ctx):
                     if not o2 or o2[0].startswith('!'):
                         ctx.count('skipped-oracle-budget'); continue
                     v2 = int(o2[0])
+                    if sum(c.isalpha() for c in fen.split()[0]) <= 12:
+                        nval_jobs.append((fen, 2, v2))
                 if 2 in got:
                     s2 = to_score(got[2], v2)
                     ctx.count('depth-2-inside-window')
@@ -1959,6 +1963,34 @@ def check_C19(ctx):
                     if not ((res <= lo and v2 <= lo) or (res >= hi and v2 >= hi)):
                         ctx.oracle_fail('aspiration-failure-on-wrong-side', cmd, {'reported': res, 'window': [lo, hi], 'minimax': v2, 'fen': fen})
     ctx.sample({'input': f'search fen {roots[0][2]} ; depth=2 tt=bypass', 'minimax': ctx.model.ask(f'oracle minimax {roots[0][2]} ; 2 ; 30000')})
+    nval_compare(ctx, nval_jobs)
+
+
+NVAL_LIMIT = [6]
+
+
+def nval_one(job):
+    fen, d, want = job
+    try:
+        r = subprocess.run([MODEL_BIN], input=f'oracle nval fen {fen} ; {d}\n', capture_output=True, text=True, timeout=NVAL_LIMIT[0])
+        return job, r.stdout.split('\n')[0].strip()
+    except subprocess.TimeoutExpired:
+        return job, None
+
+
+def nval_compare(ctx, jobs):
+    """the value function the theorems of C19 speak about (`nVal`: plain minimax over the model's generate / make /
+    evaluate, no cut-offs) against the independent minimax of the rules specification; one process per question with a
+    time limit, because a capture tree without cut-offs can be very large"""
+    from concurrent.futures import ThreadPoolExecutor
+    NVAL_LIMIT[0] = 6 if ctx.quick else 40
+    with ThreadPoolExecutor(max_workers=14) as ex:
+        for (fen, d, want), got in ex.map(nval_one, jobs):
+            if got is None:
+                ctx.count(f'nval-depth-{d}-time-limit'); continue
+            ctx.count(f'nval-depth-{d}-compared')
+            if got != str(want):
+                ctx.oracle_fail('theorem-value-function-differs-from-minimax', f'oracle nval fen {fen} ; {d}', {'nVal': got, 'minimax': want, 'fen': fen})
 
 
 def mate_matches(sc, v, mate_value=49000):
